@@ -9,6 +9,7 @@ import (
 	"log"
 	"os"
 	"runtime"
+	"slices"
 	"sync/atomic"
 
 	"github.com/apmckinlay/gsuneido/core"
@@ -374,6 +375,9 @@ func (db *Database) buildIndexes(table string,
 	}
 
 	nold := len(ts.Indexes)
+	// copy on write - ts is a shallow copy so Indexes is shared with the schema
+	// in use, and SetupNewIndexes modifies the existing indexes (e.g. Primary)
+	ts.Indexes = slices.Clip(ts.Indexes)
 	ts.Indexes = append(ts.Indexes, newIdxs...)
 	newIdxs = ts.SetupNewIndexes(nold)
 	nlayers := ti.Indexes[0].Nlayers()
